@@ -183,7 +183,7 @@ def judge(ctx, sc, seed, replay):
 
     def setup():
         for fl in sc["filters"]:
-            prot.discovery.watch_service(C.Service(*fl), listener)
+            prot.discovery.watch_service(net.client_filter(C, fl), listener)
 
     if sc.get("late_watch"):
         h.at(sc["s0"], lambda: (prot.discovery.start(), setup()))
